@@ -3991,8 +3991,11 @@ https://gcc.gnu.org/bugzilla/show_bug.cgi?id=47485'''))
             compile_args += linker.get_target_link_early_args(target)
         if compile_args:
             elem.add_item('ARGS', compile_args)
-        elem.add_item('LINK_ARGS', commands)
+        # add_item() converts the arguments in place (adding the --start-group/
+        # --end-group pair): take the introspection copy first so that it does
+        # not get the pair twice.
         self.create_target_linker_introspection(target, linker, commands)
+        elem.add_item('LINK_ARGS', commands)
         return elem
 
     def get_import_std_object(self, target: build.BuildTarget) -> T.List[str]:
